@@ -82,7 +82,9 @@ class LinearRun:
         self.allkeys = []
         for k in self.keys:
             self._kid(k)
-        self.sk = [s.CountMinLinear(self.width, self.depth) for _ in range(case["nsk"])]
+        from slice_log import shm_shape
+        shm = shm_shape(self.width, self.depth)   # odd shapes ≥ 9 cells: sketches in shared-memory blocks
+        self.sk = [s.CountMinLinear(self.width, self.depth, shared_memory=shm) for _ in range(case["nsk"])]
         self.steps = []  # dicts
         self.rng = rng
         self.resolved_ops = []
